@@ -83,7 +83,7 @@ _STORE_COMPONENTS = {
 
 CHECKS["C01"] = {
     "machine": "store",
-    "runs": {"quick": 60_000, "thorough": 1_500_000},
+    "runs": {"quick": 45_000, "thorough": 1_500_000},
     "chunk": {"quick": 500, "thorough": 500},
     "budget_s": {"quick": 80, "thorough": 900},
     "run_timeout": {"quick": 40, "thorough": 300},
@@ -114,7 +114,7 @@ CHECKS["C01"] = {
 
 CHECKS["C03"] = {
     "machine": "store",
-    "runs": {"quick": 60_000, "thorough": 1_500_000},
+    "runs": {"quick": 45_000, "thorough": 1_500_000},
     "chunk": {"quick": 500, "thorough": 500},
     "budget_s": {"quick": 80, "thorough": 900},
     "run_timeout": {"quick": 40, "thorough": 300},
